@@ -437,3 +437,79 @@ Section Idem.
           exists 1. eexists. split; [intros sc' g' Hg; destruct g' as [|g']; [lia|]; cbn; unfold walk_map; cbn; reflexivity|reflexivity].
   Qed.
 End Idem.
+
+(* ---------- at the level of merge2.Merge ---------- *)
+Definition idem_fragment (p t : node) : bool := is_map p && is_map t && wfk t && wfk p && nodir p.
+
+Section IdemTop.
+  Context {Sc : Type}.
+  Variable sch : schema Sc.
+  Variable opts : wopts.
+  Variable nonstr : string -> bool.
+  Hypothesis Hatomic : atomic_lists sch opts.
+
+  Theorem merge2_idempotent p t r :
+    idem_fragment p t = true ->
+    merge2 sch opts nonstr (Some p) (Some t) = Ok (Some r) ->
+    merge2 sch opts nonstr (Some p) (Some r) = Ok (Some r).
+  Proof.
+    unfold idem_fragment. intros Hf H.
+    repeat (apply Bool.andb_true_iff in Hf; destruct Hf as [Hf ?]).
+    destruct p as [| pk |]; try discriminate. destruct t as [| tk |]; try discriminate.
+    unfold merge2, walk_top in H.
+    destruct (walk sch opts nonstr merger (fuel_of [Some (Map tk); Some (Map pk)]) None None
+                [Some (Map tk); Some (Map pk)]) as [ro| | |] eqn:E; cbn in H; try discriminate.
+    assert (Hpp : plain_patch (Some (Map pk))) by (destruct (nodir_map _ H0); auto).
+    (* the first result is a mapping, updated in place *)
+    unfold fuel_of in E.
+    set (n0 := fold_right (fun (s : option node) (a : nat) => depth_o s + a) 0 [Some (Map tk); Some (Map pk)]) in E.
+    rewrite (level_merge sch opts nonstr) in E by auto.
+    match type of E with bind ?X _ = _ => destruct X as [d| | |] eqn:Ew; cbn [bind] in E; try discriminate end.
+    inv E. cbn in H. inv H.
+    pose proof Ew as Ew0.
+    destruct (wfk_map _ H2) as [Hnk _].
+    destruct (walk_fields_map sch nonstr _ _ _ _ _ (nodup_sort_uniq _) _ _ Hnk Ew0) as [kvs' [-> _]].
+    (* idempotence of the walk *)
+    assert (Hs : second_ok sch opts nonstr (Some (Map kvs')) (Some (Map pk))).
+    { pose proof (idem_walk sch opts nonstr Hatomic (S n0) None None
+                    (Some (Map tk)) (Some (Map pk)) (Some (mkW (Map kvs') false true))) as Hi.
+      rewrite (level_merge sch opts nonstr) in Hi by auto. rewrite Ew in Hi. cbn [bind] in Hi.
+      apply Hi; auto. left; reflexivity. }
+    destruct Hs as [g [r' [Hst Hfx]]].
+    (* bring it to the canonical fuel *)
+    unfold merge2, walk_top.
+    set (c := fuel_of [Some (Map kvs'); Some (Map pk)]).
+    assert (Hc : walk sch opts nonstr merger c None None [Some (Map kvs'); Some (Map pk)] = Ok r').
+    { assert (Hnd : walk sch opts nonstr merger c None None [Some (Map kvs'); Some (Map pk)] <> Diverge).
+      { unfold c, fuel_of. apply walk_enough; [apply merger_ok|]. apply (bounded_fuel [Some (Map kvs'); Some (Map pk)]). }
+      pose proof (walk_mono sch opts nonstr merger c g None None _ _ eq_refl Hnd) as Hm.
+      rewrite Hst in Hm by lia. auto. }
+    rewrite Hc. cbn [bind].
+    (* the second result is that mapping *)
+    unfold c, fuel_of in Hc. rewrite (level_merge sch opts nonstr) in Hc by auto.
+    match type of Hc with bind ?X _ = _ => destruct X as [d2| | |] eqn:Ew2; cbn in Hc; try discriminate end.
+    inv Hc. cbn in Hfx |- *.
+    destruct d2 as [t2 s2 x2| |]; cbn in Hfx.
+    - destruct t2; cbn in Hfx; try discriminate; destruct s2; try discriminate;
+        try (destruct (nonstr x2); discriminate).
+    - inv Hfx. reflexivity.
+    - inv Hfx.
+  Qed.
+End IdemTop.
+
+(* non-vacuity: a nested patch with a null, an added mapping, a replaced list, on a target with an unmentioned branch *)
+Definition idem_t : node :=
+  Map [("kind", Scalar TStr SPlain "Foo");
+       ("spec", Map [("a", Scalar TInt SPlain "1"); ("b", Scalar TStr SPlain "no");
+                     ("m", Map [("x", Scalar TInt SPlain "1"); ("y", Scalar TInt SPlain "2")]);
+                     ("l", Seq [Scalar TStr SPlain "p"])])].
+Definition idem_p : node :=
+  Map [("spec", Map [("a", Scalar TNull SPlain "null"); ("m", Map [("x", Scalar TStr SDouble "7")]);
+                     ("l", Seq [Scalar TStr SPlain "q"; Scalar TStr SPlain "r"]);
+                     ("n", Map [("k", Scalar TBool SPlain "true"); ("gone", Scalar TNull SPlain "null")])])].
+Example idem_example :
+  idem_fragment idem_p idem_t = true /\
+  exists r, merge2 schemaless kustomize_opts (fun s => String.eqb s "no") (Some idem_p) (Some idem_t) = Ok (Some r) /\
+            node_eqb r idem_t = false /\
+            merge2 schemaless kustomize_opts (fun s => String.eqb s "no") (Some idem_p) (Some r) = Ok (Some r).
+Proof. split; [reflexivity|]. eexists. split; [vm_compute; reflexivity|]. split; vm_compute; reflexivity. Qed.
